@@ -14,6 +14,7 @@ structure St where
   circs : List (Nat × C) := []
   builders : List (Nat × Builder GQ) := []
   fresh : Nat := 1000000
+  nextOid : Nat := 0
 
 def St.gate (s : St) (g : Nat) : Option GateSem := (s.gates.find? (·.1 == g)).map (·.2)
 def St.circ (s : St) (c : Nat) : Option C := (s.circs.find? (·.1 == c)).map (·.2)
@@ -92,7 +93,7 @@ def step (s : St) (line : String) : St × String :=
   | [["gfrozen", g, inner, k, p]] =>
     (match g.toNat?, inner.toNat?.bind s.gate, k.toNat?, parseParam p with
      | some g, some sem, some k, some p =>
-       let op : Op := ⟨g, [], [], sem.numParams, sem.radixes, sem.unitary, sem.grad⟩
+       let op : Op := ⟨g, g, [], [], sem.numParams, sem.radixes, sem.unitary, sem.grad⟩
        let f := freezeGate op k p g
        ({ s with gates := (g, ⟨f.numParams, f.radixes, f.unitary, f.grad⟩) :: s.gates }, "ok")
      | _, _, _, _ => (s, "bad-op"))
@@ -144,16 +145,21 @@ def step (s : St) (line : String) : St × String :=
         | some c => (s.setCirc ci { c with numCycles := k }, "ok")
         | none => (s, "bad-op"))
      | _, _ => (s, "bad-op"))
-  | [["add", c, cycle, g], loc, ps] =>
-    (match c.toNat?, cycle.toNat?, g.toNat?, nats loc, parseParams ps with
-     | some ci, some cycle, some g, some loc, some ps =>
+  | [("add" :: c :: cycle :: g :: oidTok), loc, ps] =>
+    (match c.toNat?, cycle.toNat?, g.toNat?, nats loc, parseParams ps, nats oidTok with
+     | some ci, some cycle, some g, some loc, some ps, some oidL =>
        (match s.circ ci, s.gate g with
         | some c, some sem =>
-          let op : Op := ⟨g, loc, ps, sem.numParams, sem.radixes, sem.unitary, sem.grad⟩
-          (s.setCirc ci { c with ops := insertOp (cycle, op) c.ops
-                                 numCycles := max c.numCycles (cycle + 1) }, "ok")
+          -- optional 5th token: identity of the Operation object (shared objects alias)
+          let oid := match oidL with
+            | [o] => o
+            | _ => 5000000 + s.nextOid
+          let op : Op := ⟨oid, g, loc, ps, sem.numParams, sem.radixes, sem.unitary, sem.grad⟩
+          ({ (s.setCirc ci { c with ops := insertOp (cycle, op) c.ops
+                                    numCycles := max c.numCycles (cycle + 1) })
+             with nextOid := s.nextOid + 1 }, "ok")
         | _, _ => (s, "bad-op"))
-     | _, _, _, _, _ => (s, "bad-op"))
+     | _, _, _, _, _, _ => (s, "bad-op"))
   | [["order", c]] =>
     (match c.toNat?.bind s.circ with
      | some c => (s, showOps c.ops)
